@@ -50,8 +50,8 @@ impl EpCfg {
             .bind_buffer_size(self.bind_buf)
             .max_flow_id_retries(self.retries);
         if let Some((i, t)) = self.keepalive {
-            let iv = if i == 0 { OptionalDuration::NONE } else { OptionalDuration::from_secs(i) };
-            let tv = if t == 0 { OptionalDuration::NONE } else { OptionalDuration::from_secs(t) };
+            let iv = if i == 0 { OptionalDuration::NONE } else { OptionalDuration::from(std::time::Duration::from_millis(i)) };
+            let tv = if t == 0 { OptionalDuration::NONE } else { OptionalDuration::from(std::time::Duration::from_millis(t)) };
             o = if self.keepalive_timeout_first { o.keepalive_timeout(tv).keepalive_interval(iv) } else { o.keepalive_interval(iv).keepalive_timeout(tv) };
         }
         o
